@@ -275,3 +275,14 @@ ASSUMPTIONS = [
     "list lengths 0..3 (bounded in this one dimension; objects, keys and positions are arbitrary); `_named_objs`, `get_range` and `update(...)` are covered by the bounded layer only",
     "callee contracts: Parameter._trigger_event (records the notification), ListProxy._warn (logging, no effect)",
 ]
+
+
+# values admitted by an unchecked ListSelector become objects of the list view: each exactly once
+_c18_base = contracts
+
+
+def contracts():
+    from contracts import c01 as _c01
+    c = _c01.listselector_unchecked_contract()
+    c.prop = PROP
+    return _c18_base() + [c]
